@@ -11,7 +11,9 @@ RULE = ("Program ASTs: node definitions, modifications of base nodes, '!constant
         "clauses (@case with literal true/false or an expression over an earlier node, optional @else) holding items "
         "recursively (depth <= 4); every block closed by @end or by indentation (indentation only where the next sibling "
         "is not itself a block, as the docs require); per-level indentation width 1-4; nodes before, inside, between "
-        "and after blocks; the same name defined in several clauses. Oracle: reference interpreter - selected clause = "
+        "and after blocks; the same name defined in several clauses; blocks with compact names ('ga.@case', contents below "
+        "ga) next to plain ones, where a following block of another path is a new block; blank and comment lines "
+        "sprinkled between the lines. Oracle: reference interpreter - selected clause = "
         "first true, else @else; an item takes effect iff every enclosing block selects its clause; case indentation "
         "does not enter names. Compared with env.data() (keys in first-effect order, values) and the constant flags. "
         "Programs with a stray @else/@end where no block is open must raise. Non-trivial: an all-false block closed by "
@@ -48,6 +50,9 @@ def items(depth):
     if depth == 0:
         return st.lists(leaf, min_size=0, max_size=3)
 
+    # compact node names: 'ga.@case ...' puts the clause contents below ga (tests/dip/test_branching.py)
+    pfx = st.sampled_from([None, None, None, "ga", "gb", "pc"])
+
     @st.composite
     def block(draw):
         n = draw(st.sampled_from([1, 1, 2, 2, 3, 4]))
@@ -57,8 +62,8 @@ def items(depth):
             # the boundary class: nothing selected, closed by indentation
             for c in clauses:
                 c["cond"] = {"lit": False}
-            return ["block", clauses, None, False]
-        return ["block", clauses, els, draw(st.booleans())]       # last: explicit @end
+            return ["block", clauses, None, False, draw(pfx)]
+        return ["block", clauses, els, draw(st.booleans()), draw(pfx)]       # explicit @end?, compact-name prefix
 
     @st.composite
     def group(draw):
@@ -78,7 +83,10 @@ def program(draw, depth):
             body = body + [blk("r1"), ["mod", c["ref"], draw(st.integers(0, 2))], blk("r2")]
     stray = draw(st.sampled_from([None] * 9 + ["else_end", "end_end", "else_start", "end_start", "else_after_closed",
                                                "else_in_clause", "else_in_group", "else_deeper_after_node"]))
-    return {"base": base, "items": body, "widths": draw(st.lists(st.integers(1, 4), min_size=6, max_size=6)), "stray": stray}
+    # blank and comment lines are legal anywhere and must not end (or keep open) a clause
+    fill = draw(st.one_of(st.none(), st.lists(st.sampled_from([0, 0, 0, 1, 2, 3]), min_size=8, max_size=8)))
+    return {"base": base, "items": body, "widths": draw(st.lists(st.integers(1, 4), min_size=6, max_size=6)), "stray": stray,
+            "fill": fill}
 
 
 def strategies(tier):
@@ -91,6 +99,18 @@ def cond_text(c):
     if "lit" in c:
         return "true" if c["lit"] else "false"
     return f'("{{?{c["ref"]}}} {c["op"]} {c["rhs"]}")'
+
+
+def _block(it):
+    return it if len(it) == 5 else list(it) + [None]
+
+
+def _explicit_end(its, idx):
+    """@end is written where asked for, and where the next sibling is a block of the same path (otherwise its first
+    @case would read as a further clause of this block)."""
+    _b, _clauses, _els, end, pf = _block(its[idx])
+    nxt = its[idx + 1] if idx + 1 < len(its) else None
+    return bool(end or (nxt is not None and nxt[0] == "block" and _block(nxt)[4] == pf))
 
 
 def render_items(its, level, widths, out):
@@ -110,22 +130,30 @@ def render_items(its, level, widths, out):
             out.append(f"{ind}{it[1]}")
             render_items(it[2], level + 1, widths, out)
         else:
-            _b, clauses, els, end = it
+            _b, clauses, els, end, pf = _block(it)
+            dot = pf + "." if pf else ""
             for c in clauses:
-                out.append(f"{ind}@case {cond_text(c['cond'])}")
+                out.append(f"{ind}{dot}@case {cond_text(c['cond'])}")
                 render_items(c["items"], level + 1, widths, out)
             if els is not None:
-                out.append(f"{ind}@else")
+                out.append(f"{ind}{dot}@else")
                 render_items(els, level + 1, widths, out)
-            nxt = its[idx + 1] if idx + 1 < len(its) else None
-            if end or (nxt is not None and nxt[0] == "block"):
-                out.append(f"{ind}@end")
+            if _explicit_end(its, idx):
+                out.append(f"{ind}{dot}@end")
 
 
 def render(case):
     out = [f"{n} int = {v}" for n, v in zip(BASE, case["base"])]
     body = []
     render_items(case["items"], 0, case["widths"], body)
+    if case.get("fill"):
+        filled = []
+        for i, line in enumerate(body):
+            f = case["fill"][i % len(case["fill"])]
+            if f:
+                filled.append({1: "", 2: "# note", 3: "        # indented note"}[f])
+            filled.append(line)
+        body = filled
     s = case["stray"]
     if s == "else_start":
         out = ["@else", "  q int = 1"] + out + body
@@ -160,7 +188,8 @@ def truth(c, model):
 def interpret(case):
     model = {}
     const = {}
-    info = {"allfalse_indent_then_node": False, "nested_in_unselected": False, "max_clauses": 0}
+    info = {"allfalse_indent_then_node": False, "nested_in_unselected": False, "max_clauses": 0,
+            "compact_names": False, "sibling_blocks_by_indent": False}
     for n, v in zip(BASE, case["base"]):
         model[n] = v
         const[n] = False
@@ -185,7 +214,10 @@ def interpret(case):
             elif k == "group":
                 walk(it[2], prefix + it[1] + ".", active)
             else:
-                _b, clauses, els, end = it
+                _b, clauses, els, end, pf = _block(it)
+                inner = prefix + (pf + "." if pf else "")
+                if pf:
+                    info["compact_names"] = True
                 info["max_clauses"] = max(info["max_clauses"], len(clauses) + (els is not None))
                 chosen = None
                 for i, c in enumerate(clauses):
@@ -196,11 +228,13 @@ def interpret(case):
                 if not active and any(x[0] in ("def", "mod", "block") for c in clauses for x in c["items"]):
                     info["nested_in_unselected"] = True
                 for i, c in enumerate(clauses):
-                    walk(c["items"], prefix, active and chosen == i)
+                    walk(c["items"], inner, active and chosen == i)
                 if els is not None:
-                    walk(els, prefix, active and chosen is None)
+                    walk(els, inner, active and chosen is None)
                 nxt = its[idx + 1] if idx + 1 < len(its) else None
-                explicit = end or (nxt is not None and nxt[0] == "block")
+                explicit = _explicit_end(its, idx)
+                if not explicit and nxt is not None and nxt[0] == "block":
+                    info["sibling_blocks_by_indent"] = True
                 if active and chosen is None and els is None and not explicit and nxt is not None:
                     info["allfalse_indent_then_node"] = True
     walk(case["items"], "", True)
@@ -247,15 +281,16 @@ def _redefinition_of_constant(case):
             elif k == "group":
                 walk(it[2], prefix + it[1] + ".", active)
             else:
-                _b, clauses, els, _end = it
+                _b, clauses, els, _end, pf = _block(it)
+                inner = prefix + (pf + "." if pf else "")
                 chosen = None
                 for i, c in enumerate(clauses):
                     if chosen is None and truth(c["cond"], model):
                         chosen = i
                 for i, c in enumerate(clauses):
-                    walk(c["items"], prefix, active and chosen == i)
+                    walk(c["items"], inner, active and chosen == i)
                 if els is not None:
-                    walk(els, prefix, active and chosen is None)
+                    walk(els, inner, active and chosen is None)
     walk(case["items"], "", True)
     return bad[0]
 
@@ -276,8 +311,10 @@ def _normalise(its, in_group, counter=None):
         elif it[0] == "group":
             out.append(["group", it[1], _normalise(it[2], True, counter)])
         elif it[0] == "block":
-            out.append(["block", [{"cond": c["cond"], "items": _normalise(c["items"], in_group, counter)} for c in it[1]],
-                        None if it[2] is None else _normalise(it[2], in_group, counter), it[3]])
+            pf = _block(it)[4]
+            ing = in_group or bool(pf)
+            out.append(["block", [{"cond": c["cond"], "items": _normalise(c["items"], ing, counter)} for c in it[1]],
+                        None if it[2] is None else _normalise(it[2], ing, counter), it[3], pf])
         else:
             out.append(it)
     return out
@@ -315,7 +352,9 @@ def _check(case, v):
             return v.fail("property-effect", f"{k}.constant = {nodes[k].constant}, expected {c} for:\n{text}")
     v.nt(info["allfalse_indent_then_node"] or info["nested_in_unselected"] or info["max_clauses"] >= 3)
     v.label("program")
-    for key in ("allfalse_indent_then_node", "nested_in_unselected"):
+    if case.get("fill") and any(case["fill"]):
+        v.label("blank_or_comment_lines")
+    for key in ("allfalse_indent_then_node", "nested_in_unselected", "compact_names", "sibling_blocks_by_indent"):
         if info[key]:
             v.label(key)
     if info["max_clauses"] >= 3:
